@@ -143,4 +143,6 @@ CaseRec ==
      exp |-> [result |-> result, err |-> err, loc |-> [ns \in NS |-> loc[ns]],
               validDel |-> validDel, failedDel |-> failedDel, events |-> events]]
 EmitInv == Done => PrintT(<<"CASE", ToJson(CaseRec)>>)
+\* for the large instance: only a slice is printed (the harness samples from it anyway)
+EmitSome == (Done /\ sc.mode = "pull" /\ sc.threshold \in {2, 3}) => PrintT(<<"CASE", ToJson(CaseRec)>>)
 =============================================================================
